@@ -52,10 +52,24 @@ class tar_syncer(http_syncer, base.ExternalSyncer):
         # remove tempdirs on exit
         atexit.register(partial(shutil.rmtree, self.tempdir, ignore_errors=True))
         atexit.register(partial(shutil.rmtree, self.tempdir_old, ignore_errors=True))
+
+        # an update interrupted between its two renames has moved the repo
+        # out of the way without moving the new one in- put it back
+        if (
+            not os.path.exists(basedir)
+            and os.path.isdir(self.tempdir_old)
+            and os.listdir(self.tempdir_old)
+        ):
+            os.rename(self.tempdir_old, basedir)
         return self.tarball.name
 
     def _post_download(self, path):
         super()._post_download(path)
+
+        # staging dirs left behind by an interrupted or failed run would make
+        # every later sync fail at the makedirs calls below
+        shutil.rmtree(self.tempdir, ignore_errors=True)
+        shutil.rmtree(self.tempdir_old, ignore_errors=True)
 
         # create tempdirs for staging
         try:
